@@ -57,16 +57,24 @@ var chains = []string{"big", "small"}
 
 // reduced alphabet for 3-message sessions (thorough)
 var alpha3Names = []string{
-	"StatusMsg(td=0)", "StatusMsg(td=H+10,head=unknown)", "StatusMsg:empty",
-	"NewBlockHashesMsg(unknown*1)", "NewBlockHashesMsg(known*600)", "NewBlockHashesMsg:truncated",
-	"TxMsg(unsigned-send)", "TxMsg(nested-descendants)", "TxMsg:wrong-kind",
-	"GetBlockHashesMsg(frontier,512)", "GetBlockHashesMsg(genesis,0)", "GetBlockHashesMsg(mid,2^64-1)", "GetBlockHashesMsg(unknown,1)", "GetBlockHashesMsg:truncated",
-	"BlockHashesMsg(unknown*1)", "BlockHashesMsg(known*129)", "BlockHashesMsg:wrong-kind",
-	"GetBlocksMsg(known*129)", "GetBlocksMsg(unknown*1)", "GetBlocksMsg(known*1)", "GetBlocksMsg:empty",
-	"BlocksMsg(forged:h=H+1,parent=frontier)", "BlocksMsg(forged:h=0,parent=frontier)", "BlocksMsg(none)", "BlocksMsg(own-frontier)", "BlocksMsg:truncated",
-	"NewBlockMsg(forged:h=H+1,parent=frontier)", "NewBlockMsg(forged:h=0,parent=frontier)", "NewBlockMsg(forged:h=1,parent=genesis)", "NewBlockMsg(forged:h=H+2,parent=frontier)", "NewBlockMsg(own-frontier)", "NewBlockMsg:wrong-kind",
-	"GetBlockHashesFromNumberMsg(0,0)", "GetBlockHashesFromNumberMsg(1,512)", "GetBlockHashesFromNumberMsg(H,513)", "GetBlockHashesFromNumberMsg(H+1,1)", "GetBlockHashesFromNumberMsg(2^64-1,2^64-1)", "GetBlockHashesFromNumberMsg:empty",
-	"Code9:empty", "NewBlockHashesMsg:oversize(10MiB+1)",
+	"StatusMsg(td=0)", "StatusMsg(td=H+10,head=unknown)", "StatusMsg:empty", "StatusMsg(wrong-genesis)",
+	"NewBlockHashesMsg(unknown*1)", "NewBlockHashesMsg(unknown*129)", "NewBlockHashesMsg(known*600)", "NewBlockHashesMsg:truncated", "NewBlockHashesMsg:oversize(10MiB+1)",
+	"TxMsg(unsigned-send)", "TxMsg(nested-descendants)", "TxMsg(contract-send-huge)", "TxMsg:wrong-kind", "TxMsg(element-empty-list)",
+	"GetBlockHashesMsg(frontier,0)", "GetBlockHashesMsg(frontier,1)", "GetBlockHashesMsg(frontier,512)", "GetBlockHashesMsg(frontier,513)", "GetBlockHashesMsg(frontier,2^64-1)",
+	"GetBlockHashesMsg(genesis,0)", "GetBlockHashesMsg(genesis,1)", "GetBlockHashesMsg(genesis,512)", "GetBlockHashesMsg(genesis,513)", "GetBlockHashesMsg(genesis,2^64-1)",
+	"GetBlockHashesMsg(unknown,0)", "GetBlockHashesMsg(unknown,1)", "GetBlockHashesMsg(unknown,512)", "GetBlockHashesMsg(unknown,513)", "GetBlockHashesMsg(unknown,2^64-1)",
+	"GetBlockHashesMsg:truncated", "GetBlockHashesMsg:empty",
+	"BlockHashesMsg(unknown*1)", "BlockHashesMsg(known*129)", "BlockHashesMsg(unknown*600)", "BlockHashesMsg:wrong-kind",
+	"GetBlocksMsg(known*1)", "GetBlocksMsg(known*129)", "GetBlocksMsg(known*600)", "GetBlocksMsg(unknown*1)", "GetBlocksMsg(unknown*129)", "GetBlocksMsg:empty", "GetBlocksMsg:truncated",
+	"BlocksMsg(forged:h=H+1,parent=frontier)", "BlocksMsg(forged:h=0,parent=frontier)", "BlocksMsg(forged:h=1,parent=genesis)", "BlocksMsg(none)", "BlocksMsg(own-frontier)", "BlocksMsg(forged*129)",
+	"BlocksMsg:truncated", "BlocksMsg(momentum-empty-list)",
+	"NewBlockMsg(forged:h=0,parent=frontier)", "NewBlockMsg(forged:h=1,parent=genesis)", "NewBlockMsg(forged:h=H,parent=frontier)", "NewBlockMsg(forged:h=H+1,parent=frontier)",
+	"NewBlockMsg(forged:h=H+2,parent=frontier)", "NewBlockMsg(forged:h=H+1,parent=unknown)", "NewBlockMsg(own-frontier)", "NewBlockMsg(forged:h=H+1,parent=frontier,garbage-signature)",
+	"NewBlockMsg:wrong-kind", "NewBlockMsg(momentum-empty-string)",
+	"GetBlockHashesFromNumberMsg(0,0)", "GetBlockHashesFromNumberMsg(0,1)", "GetBlockHashesFromNumberMsg(1,0)", "GetBlockHashesFromNumberMsg(1,1)", "GetBlockHashesFromNumberMsg(1,512)",
+	"GetBlockHashesFromNumberMsg(1,513)", "GetBlockHashesFromNumberMsg(H,1)", "GetBlockHashesFromNumberMsg(H,513)", "GetBlockHashesFromNumberMsg(H+1,1)",
+	"GetBlockHashesFromNumberMsg(2^64-1,2^64-1)", "GetBlockHashesFromNumberMsg(2^63,2^63)", "GetBlockHashesFromNumberMsg(0,2^64-1)", "GetBlockHashesFromNumberMsg:empty",
+	"Code9:empty", "Code1099511627776:hash-list",
 }
 
 // scripted sessions: the peer makes the node synchronise with it (a propagated block above the peer's advertised
@@ -102,51 +110,103 @@ func scriptedSessions() []sessionSpec {
 
 var scripted = scriptedSessions()
 
-type enumLayout struct {
-	nA, nA3         int
-	len1, len2, len3 int // per (chain, pre)
-	perCombo        int
-	blind           int
-	total           int
+// Sessions that start before the handshake: the first letter either is a well-formed status (the session goes on as a
+// handshaken one) or must get the peer dropped. A session (x, y, ..) whose x is not a well-formed status is, message for
+// message, the one-letter session (x): y is never sent. Those are not executed again for every y; they are counted as
+// pruned, and the premise (x alone gets the peer dropped before the handshake) is executed for every x and checked.
+type enumBlock struct {
+	chain string
+	pre   bool
+	n     int // letters per session
+	first []string
+	rest  []string
+	size  int
 }
 
-func layout(tier string) enumLayout {
-	l := enumLayout{nA: len(alpha), nA3: len(alpha3Names)}
-	l.len1 = l.nA
-	l.len2 = l.nA * l.nA
-	if tier == "thorough" {
-		l.len3 = l.nA3 * l.nA3 * l.nA3
+type enumLayout struct {
+	blocks []enumBlock
+	total  int
+	pruned int
+}
+
+func statusOK(names []string) []string {
+	var out []string
+	for _, n := range names {
+		if lookupLetter(n).Status {
+			out = append(out, n)
+		}
 	}
-	l.perCombo = l.len1 + l.len2 + l.len3
-	l.blind = 4 * l.perCombo
-	l.total = l.blind + len(scripted)
+	return out
+}
+
+var layouts = map[string]*enumLayout{}
+
+func layout(tier string) *enumLayout {
+	if l := layouts[tier]; l != nil {
+		return l
+	}
+	var all []string
+	for _, l := range alpha {
+		all = append(all, l.Name)
+	}
+	l := &enumLayout{}
+	pow := func(b, e int) int {
+		r := 1
+		for ; e > 0; e-- {
+			r *= b
+		}
+		return r
+	}
+	for _, chain := range chains {
+		for _, pre := range []bool{false, true} {
+			maxLen := 2
+			if tier == "thorough" {
+				maxLen = 3
+			}
+			for n := 1; n <= maxLen; n++ {
+				letters := all
+				if n == 3 {
+					letters = alpha3Names
+				}
+				first := letters
+				if pre && n > 1 {
+					first = statusOK(letters)
+					l.pruned += (len(letters) - len(first)) * pow(len(letters), n-1)
+				}
+				b := enumBlock{chain: chain, pre: pre, n: n, first: first, rest: letters, size: len(first) * pow(len(letters), n-1)}
+				l.blocks = append(l.blocks, b)
+				l.total += b.size
+			}
+		}
+	}
+	l.total += len(scripted)
+	layouts[tier] = l
 	return l
 }
 
 func numSessions(tier string) int { return layout(tier).total }
 
-// sessionAt decodes a flat index. Consecutive indices differ in the last letter first, so that i % nshards spreads
-// every kind of session evenly over the shards. Scripted sessions come first (they involve a real-time wait).
+// sessionAt decodes a flat index: scripted sessions first (they involve a real-time wait), then block after block; in
+// a block consecutive indices differ in the last letter first, so that i % nshards spreads every kind of session evenly.
 func sessionAt(tier string, i int) sessionSpec {
-	l := layout(tier)
 	if i < len(scripted) {
 		return scripted[i]
 	}
 	i -= len(scripted)
-	combo := i % 4 // interleave the four (chain, pre) combinations
-	i /= 4
-	s := sessionSpec{Part: "a", Chain: chains[combo/2], Pre: combo%2 == 1}
-	switch {
-	case i < l.len1:
-		s.Letters = []string{alpha[i].Name}
-	case i < l.len1+l.len2:
-		i -= l.len1
-		s.Letters = []string{alpha[i/l.nA].Name, alpha[i%l.nA].Name}
-	default:
-		i -= l.len1 + l.len2
-		s.Letters = []string{alpha3Names[i/(l.nA3*l.nA3)], alpha3Names[(i/l.nA3)%l.nA3], alpha3Names[i%l.nA3]}
+	for _, b := range layout(tier).blocks {
+		if i >= b.size {
+			i -= b.size
+			continue
+		}
+		s := sessionSpec{Part: "a", Chain: b.chain, Pre: b.pre, Letters: make([]string, b.n)}
+		for k := b.n - 1; k >= 1; k-- {
+			s.Letters[k] = b.rest[i%len(b.rest)]
+			i /= len(b.rest)
+		}
+		s.Letters[0] = b.first[i]
+		return s
 	}
-	return s
+	panic("session index out of range")
 }
 
 // ---------------------------------------------------------------------------------------------------------------------
@@ -195,6 +255,9 @@ func mergeSession(r *xs.Result, s sessionSpec, res *sessResult) {
 	}
 	if s.Pre {
 		r.Count("a_sessions_before_handshake", 1)
+		if len(s.Letters) == 1 && !lookupLetter(s.Letters[0]).Status && len(res.Outcomes) == 1 && strings.HasPrefix(res.Outcomes[0], "dropped:") {
+			r.Count("a_pruning_premise_established", 1) // this first letter alone ends a not yet handshaken session
+		}
 	}
 	r.Count("a_sessions_chain_"+s.Chain, 1)
 	for k, v := range res.Counters {
@@ -228,18 +291,23 @@ func runPartA(c *xs.Ctx, r *xs.Result) {
 	if c.Shard == 0 {
 		r.Count("a_alphabet_letters", int64(len(alpha)))
 		r.Count("a_alphabet3_letters", int64(len(alpha3Names)))
-		r.Count("a_sessions_in_bound", int64(total))
+		r.Count("a_sessions_executed_in_bound", int64(total))
+		r.Count("a_sessions_pruned_equivalent_to_dead_prefix", int64(layout(c.Tier).pruned))
+		r.Count("a_sessions_in_bound", int64(total+layout(c.Tier).pruned))
 	}
 	start := 0
 	respawns := 0
 	var blocked []int
+	chainDir := c.TempDir() // kept across respawns: a respawned child reopens the chains instead of rebuilding them
+	defer os.RemoveAll(chainDir)
+	confirmedCrash := map[string]bool{}
 	for start < total {
 		if c.Expired() {
 			r.Incomplete = true
 			r.Note("part a: deadline reached at session %d of %d (shard %d)", start, total, c.Shard)
 			break
 		}
-		spec := childSpec{Mode: "range", Tier: c.Tier, Shard: c.Shard, NShards: c.NShards, Start: start, Dir: c.TempDir(), Deadline: c.Deadline.UnixNano()}
+		spec := childSpec{Mode: "range", Tier: c.Tier, Shard: c.Shard, NShards: c.NShards, Start: start, Dir: chainDir, Deadline: c.Deadline.UnixNano()}
 		cr := spawnChild(c.TempDir(), spec, c.Deadline.Add(30*time.Second), func(idx int, res *sessResult) {
 			s := sessionAt(c.Tier, idx)
 			if res.Blocked != "" {
@@ -249,7 +317,6 @@ func runPartA(c *xs.Ctx, r *xs.Result) {
 			}
 			mergeSession(r, s, res)
 		})
-		os.RemoveAll(spec.Dir)
 		if cr.expired >= 0 {
 			r.Incomplete = true
 			r.Note("part a: deadline reached at session %d of %d (shard %d)", cr.expired, total, c.Shard)
@@ -265,29 +332,39 @@ func runPartA(c *xs.Ctx, r *xs.Result) {
 			if respawns > 3 {
 				panic(fmt.Sprintf("session child keeps dying outside any session: %v\n%s", cr.exitErr, tail(cr.stderr, 2000)))
 			}
+			os.RemoveAll(chainDir)
+			chainDir = c.TempDir()
 			continue
 		}
 		idx := cr.inflight
 		s := sessionAt(c.Tier, idx)
 		reason, site := crashSignature(cr.stderr)
-		// confirm: the same session alone in a fresh process
-		again := runSingle(c, s, false)
-		if again.cr.inflight == 0 && !again.cr.done {
-			reason2, site2 := crashSignature(again.cr.stderr)
-			if reason2 != "" {
-				reason, site = reason2, site2
-			}
-			r.Count("a_sessions", 1)
-			r.Violate(fmt.Sprintf("C15:process-crash:%s:%s@%s", codeNamesOf(s), panicKind(reason), site),
-				fmt.Sprintf("session {%s} terminates the node process (reproduced alone in a fresh process): %s\n%s", s.String(), reason, tail(again.cr.stderr, 3000)), s)
+		sig := panicKind(reason) + "@" + site
+		r.Count("a_sessions", 1)
+		if reason != "" && confirmedCrash[sig] {
+			// the same crash (reason and site) was already reproduced alone in a fresh process by this worker
+			r.Count("a_child_deaths_same_signature", 1)
+			r.Violate("C15:process-crash:"+sig, fmt.Sprintf("session {%s} terminates the node process: %s", s.String(), reason), s)
 		} else {
-			r.Count("a_child_death_not_reproduced", 1)
-			r.Note("child died during session %d {%s} (%v: %s at %s) but the session alone does not reproduce it", idx, s.String(), cr.exitErr, reason, site)
-			if again.res != nil {
-				mergeSession(r, s, again.res)
+			// confirm: the same session alone in a fresh process
+			again := runSingle(c, s, false)
+			if again.cr.inflight == 0 && !again.cr.done {
+				if reason2, site2 := crashSignature(again.cr.stderr); reason2 != "" {
+					reason, site = reason2, site2
+					sig = panicKind(reason) + "@" + site
+				}
+				confirmedCrash[sig] = true
+				r.Violate("C15:process-crash:"+sig,
+					fmt.Sprintf("session {%s} terminates the node process (reproduced alone in a fresh process): %s\n%s", s.String(), reason, tail(again.cr.stderr, 3000)), s)
+			} else {
+				r.Count("a_child_death_not_reproduced", 1)
+				r.Note("child died during session %d {%s} (%v: %s at %s) but the session alone does not reproduce it", idx, s.String(), cr.exitErr, reason, site)
+				if again.res != nil {
+					mergeSession(r, s, again.res)
+				}
 			}
 		}
-		if respawns > 200 {
+		if respawns > 400 {
 			r.Incomplete = true
 			r.Note("part a: too many child deaths, stopping at session %d", idx)
 			break
@@ -370,7 +447,7 @@ func replay(c *xs.Ctx, r *xs.Result) {
 		if out.res == nil {
 			reason, site := crashSignature(out.cr.stderr)
 			r.Count("a_sessions", 1)
-			r.Violate(fmt.Sprintf("C15:process-crash:%s:%s@%s", codeNamesOf(s), panicKind(reason), site),
+			r.Violate(fmt.Sprintf("C15:process-crash:%s@%s", panicKind(reason), site),
 				fmt.Sprintf("session {%s} terminates the node process: %s\n%s", s.String(), reason, tail(out.cr.stderr, 3000)), s)
 			return
 		}
@@ -407,6 +484,23 @@ func finish(tier string, m *xs.Result, ev *xs.Evidence) {
 	}
 	sort.Strings(sets)
 	ev.Coverage["distinct_nontrivial"] = nontrivial
+	for _, part := range []string{"a", "b", "c"} {
+		sub := map[string]int64{}
+		for k, v := range m.Counters {
+			if strings.HasPrefix(k, part+"_") {
+				sub[k] = v
+			}
+		}
+		ev.Coverage["part_"+part] = sub
+	}
+	for k, v := range m.Counters {
+		if strings.HasPrefix(k, "harness_") && v > 0 {
+			m.Note("harness anomaly counter %s = %d", k, v)
+		}
+	}
+	if v := m.Counters["a_quiesce_timeout"]; v > 0 {
+		m.Note("%d waits for quiescence of the node's goroutines ran into their 5 s limit (informational)", v)
+	}
 	ev.Coverage["distinct_nontrivial_explanation"] = "number of distinct (message code, payload kind, observed outcome class) triples in part a + distinct (mutation family, reader outcome) pairs in part b + distinct (packet type, mutation family, decode/handle outcome) triples in part c"
 	for _, name := range []string{"a_outcomes", "b_outcomes", "c_outcomes", "a_malformed_tolerated", "a_well_formed_dropped"} {
 		var l []string
@@ -425,6 +519,7 @@ func finish(tier string, m *xs.Result, ev *xs.Evidence) {
 			}
 		}
 		if m.Counters["a_sessions"] > 1000 && os.Getenv("VERIF_C15_PARTS") == "" && !m.Incomplete {
+			guard("a_pruning_premise_established", int64(len(chains)*(len(alpha)-len(statusOK(alphaNames())))))
 			guard("a_replies_exactly_at_hash_cap", 1)
 			guard("a_replies_exactly_at_momentum_cap", 1)
 			guard("a_peer_dropped_with_error", 100)
@@ -471,4 +566,12 @@ func runPartC(c *xs.Ctx, r *xs.Result, only string) {
 	r.Violate(fmt.Sprintf("C15:discover:process-crash:%s@%s", panicKind(reason), site),
 		fmt.Sprintf("the process died while discovery packet case %q was being handled (or shortly after, on a goroutine it started): %s\n%s", cr.progress, reason, tail(cr.stderr, 3000)),
 		map[string]string{"part": "c", "case": cr.progress})
+}
+
+func alphaNames() []string {
+	var all []string
+	for _, l := range alpha {
+		all = append(all, l.Name)
+	}
+	return all
 }
